@@ -367,6 +367,15 @@ theorem C05_py_zmatrix (norb nele : Nat) (hn : nele ≤ norb) (r c : Nat) :
 
 example : GenPy.z1_value 6 3 1 2 = zEntry 6 3 0 1 ∧ zEntry 6 3 0 1 = 6 ∧ (2 : Int) ∈ GenPy.z1_cols 6 3 1 := by decide +kernel
 
+/-- the reference-path string address `FciGraph._build_string_address` *as it stands in /repo* (shape checked and
+    translated on every run), evaluated on the Model's Z matrix (which `C05_py_zmatrix` shows the translated
+    `_get_Z_matrix` to build), is the Model's `addressOf` — by `C05_address` the lexical rank — for every string with
+    `nele` occupied orbitals -/
+theorem C05_py_string_address (norb nele s : Nat) (h : (integerIndex s).length = nele) :
+    GenPy.string_address (fun i o => zEntry norb nele i.toNat o.toNat) (nele : Int) (norb : Int) (GenPy.castL (integerIndex s)) =
+      some (addressOf norb nele s) :=
+  GenPy.py_string_address norb nele s h
+
 /-- the accelerated-path Z matrix: the loops of `calculate_Z_matrix` (fci_graph.c) and the literal binomial table of
     `initialize_binom` (binom.h), both read from /repo on every run, for every norb ≤ 64 (the size of the table):
     the first nest visits exactly the (k, ll) of the Model's first branch, every table entry it reads was initialised,
